@@ -133,7 +133,7 @@ theorem rt_value {nodeRow nodeCol : Nat → Nat → Nat → Nat → Nat} (f : Na
     (hrt : rtWith nodeRow nodeCol f h im = .ok (h', out)) :
     h' = { naxis1 := h.naxis1, naxis2 := h.naxis2,
            crpix1 := ((h.crpix1 + f - 1) / f - 1) * f + 1, crpix2 := ((h.crpix2 + f - 1) / f - 1) * f + 1,
-           cdelt1 := h.cdelt1, cd11 := h.cd11, cdelt2 := h.cdelt2, cd22 := h.cd22, bn := none } ∧
+           cdelt1 := h.cdelt1, cd11 := h.cd11, cdelt2 := h.cdelt2, cd22 := h.cd22, bn := none, other := h.other } ∧
     out = { rows := h.naxis2, cols := h.naxis1,
             px := interp2 (fun k => k * f) (fun k => k * f) ((im.rows + f - 1) / f + 1) ((im.cols + f - 1) / f + 1)
                     (cpx f im) } := by
@@ -208,12 +208,22 @@ theorem keywords_restored {nodeRow nodeCol : Nat → Nat → Nat → Nat → Nat
   · show ((h.crpix2 + f - 1) / f - 1) * f + 1 = h.crpix2
     field_simp; ring
 
+/-- **other_keys_unchanged**: every card other than NAXISi, CRPIXi, the scale keyword of each axis and
+    BN_* — in particular the off-diagonal CD1_2 / CD2_1 of a rotated image, PCi_j, CROTA2, CRVALi,
+    CTYPEi — has the same value after the round trip, and none appears or disappears. -/
+theorem other_keys_unchanged {nodeRow nodeCol : Nat → Nat → Nat → Nat → Nat} (f : Nat) (hf : 0 < f) (h : Hdr ℝ) (im : Img ℝ)
+    (wf : WF h im) (N : NodesOK nodeRow nodeCol f im.rows im.cols) {h' : Hdr ℝ} {out : Img ℝ}
+    (hrt : rtWith nodeRow nodeCol f h im = .ok (h', out)) : h'.other = h.other := by
+  obtain ⟨e1, _⟩ := rt_value f hf h im wf N hrt
+  subst e1; rfl
+
 /-- the compressed header in between: it *is* marked compressed, the scale is multiplied by `f`
     and the reference pixel is `(c + f − 1)/f` -/
 theorem compressed_header (f : Nat) (hf : 0 < f) (h : Hdr ℝ) (im : Img ℝ) (wf : WF h im) :
     ∃ hc c, compress Gen.C15.nxOf Gen.C15.nyOf Gen.C15.lcxOf Gen.C15.lcyOf f h im = .ok (hc, c) ∧
       hc.bn = some { cfac := f, npx1 := h.naxis1, npx2 := h.naxis2, rpx1 := im.rows % f, rpx2 := im.cols % f } ∧
       hc.crpix1 = (h.crpix1 + f - 1) / f ∧ hc.crpix2 = (h.crpix2 + f - 1) / f ∧
+      hc.other = h.other ∧     -- compress itself leaves every other card (CD1_2, CD2_1, …) alone
       c.rows = (im.rows + f - 1) / f + 1 ∧ c.cols = (im.cols + f - 1) / f + 1 ∧
       hc.naxis2 = c.rows ∧ hc.naxis1 = c.cols := by
   have hfr : (f : ℝ) ≠ 0 := by
@@ -221,7 +231,7 @@ theorem compressed_header (f : Nat) (hf : 0 < f) (h : Hdr ℝ) (im : Img ℝ) (w
     exact ne_of_gt this
   obtain ⟨a1, b1, u1, _⟩ := scale_roundtrip (f : ℝ) hfr h.cdelt1 h.cd11 wf.scale1
   obtain ⟨a2, b2, u2, _⟩ := scale_roundtrip (f : ℝ) hfr h.cdelt2 h.cd22 wf.scale2
-  exact ⟨_, _, compress_ok gen_idx_laws f hf h im wf.rows wf.cols u1 u2, rfl, rfl, rfl, rfl, rfl, rfl, rfl⟩
+  exact ⟨_, _, compress_ok gen_idx_laws f hf h im wf.rows wf.cols u1 u2, rfl, rfl, rfl, rfl, rfl, rfl, rfl, rfl⟩
 
 /-- **bn_keys_removed**: no BN_* keyword survives the round trip (so `is_compressed` is false). -/
 theorem bn_keys_removed {nodeRow nodeCol : Nat → Nat → Nat → Nat → Nat} (f : Nat) (hf : 0 < f) (h : Hdr ℝ) (im : Img ℝ)
@@ -279,6 +289,7 @@ structure Holds (f : Nat) (h : Hdr ℝ) (im : Img ℝ) (h' : Hdr ℝ) (out : Img
   shape : ShapeRestored im.rows im.cols out.rows out.cols ∧ h'.naxis1 = h.naxis1 ∧ h'.naxis2 = h.naxis2
   keywords : h'.crpix1 = h.crpix1 ∧ h'.crpix2 = h.crpix2 ∧
     h'.cdelt1 = h.cdelt1 ∧ h'.cd11 = h.cd11 ∧ h'.cdelt2 = h.cdelt2 ∧ h'.cd22 = h.cd22
+  others : h'.other = h.other
   bn : h'.bn = none
   nodes : NodeExact f im.rows im.cols im.px out.px
   range : WithinRange f im.rows im.cols im.px out.px
@@ -291,7 +302,7 @@ theorem roundtrip_holds (f : Nat) (hf : 1 ≤ f) (h64 : f ≤ 64) (h : Hdr ℝ) 
   have N := gen_nodes_ok f im.rows im.cols hf h64
   obtain ⟨h', out, hrt⟩ := succeeds f hf h im wf N
   exact ⟨h', out, hrt, shape_restored f hf h im wf N hrt, keywords_restored f hf h im wf N hrt,
-    bn_keys_removed f hf h im wf N hrt, node_exact f hf h im wf N hrt, within_range f hf h im wf N hrt,
+    other_keys_unchanged f hf h im wf N hrt, bn_keys_removed f hf h im wf N hrt, node_exact f hf h im wf N hrt, within_range f hf h im wf N hrt,
     linear_exact f hf h im wf N hrt⟩
 
 /-- **C15 for every factor ≥ 1**, with `int(lc / factor)` read as the natural-number quotient. -/
@@ -300,7 +311,7 @@ theorem roundtrip_holds_anyFactor (f : Nat) (hf : 1 ≤ f) (h : Hdr ℝ) (im : I
   have N := nat_nodes_ok f im.rows im.cols hf
   obtain ⟨h', out, hrt⟩ := succeeds f hf h im wf N
   exact ⟨h', out, hrt, shape_restored f hf h im wf N hrt, keywords_restored f hf h im wf N hrt,
-    bn_keys_removed f hf h im wf N hrt, node_exact f hf h im wf N hrt, within_range f hf h im wf N hrt,
+    other_keys_unchanged f hf h im wf N hrt, bn_keys_removed f hf h im wf N hrt, node_exact f hf h im wf N hrt, within_range f hf h im wf N hrt,
     linear_exact f hf h im wf N hrt⟩
 
 /-! ### The hypotheses are forced: what happens outside them (each observed on the real code by the
@@ -349,7 +360,8 @@ theorem shifted_grid_not_covering (f m n : Nat) (hf : 0 < f) (hn : 0 < n) :
 /-- a concrete well-formed input: 7 × 5 ramp, CDELT on axis 1 and CD on axis 2 -/
 noncomputable def exH : Hdr ℝ :=
   { naxis1 := 5, naxis2 := 7, crpix1 := 3, crpix2 := 5.5, cdelt1 := some (-0.0125), cd11 := none,
-    cdelt2 := none, cd22 := some 0.03125, bn := none }
+    cdelt2 := none, cd22 := some 0.03125, bn := none,
+    other := [("CD1_2", "0.004"), ("CD2_1", "-0.004"), ("CTYPE1", "RA---SIN")] }
 noncomputable def exI : Img ℝ := { rows := 7, cols := 5, px := fun r c => 2 + 3 * r - c }
 
 example : WF exH exI := ⟨by decide, by decide, rfl, rfl, Or.inl rfl, Or.inr rfl⟩
